@@ -20,14 +20,18 @@ NoMetric == "-"
 
 (* The metric m of version ver such that element e is exactly "m:value"    *)
 (* with value one of m's values; NoMetric if there is none.                 *)
+AbvTable == [ver \in VersionSet |-> [a \in {SB[m] : m \in MetricSet(ver)} |-> CHOOSE m \in MetricSet(ver) : SB[m] = a]]
+ValTable == [ver \in VersionSet |-> [m \in MetricSet(ver) |->
+               [b \in {SB[x] : x \in Values(ver, m)} |-> CHOOSE x \in Values(ver, m) : SB[x] = b]]]
 ElemMetric(ver, e) ==
   LET kv == Cut(e)
-      M == {m \in MetricSet(ver) : kv.c /\ kv.a = SB[m]
-                                   /\ \E v \in Values(ver, m) : kv.v = SB[v]}
-  IN  IF M = {} THEN NoMetric ELSE CHOOSE m \in M : TRUE
+  IN  IF kv.c /\ kv.a \in DOMAIN AbvTable[ver]
+      THEN LET m == AbvTable[ver][kv.a]
+           IN  IF kv.v \in DOMAIN ValTable[ver][m] THEN m ELSE NoMetric
+      ELSE NoMetric
 
 (* the value string written in a well-formed element of metric m *)
-ElemValue(ver, m, e) == CHOOSE v \in Values(ver, m) : Cut(e).v = SB[v]
+ElemValue(ver, m, e) == ValTable[ver][m][Cut(e).v]
 
 IsElem(ver, e, m) == ElemMetric(ver, e) = m
 
